@@ -221,9 +221,23 @@ impl<D: DataMut> FillUniform for ScalarZnx<D> {
 /// Owned `ScalarZnx` backed by a `Vec<u8>`.
 pub type ScalarZnxOwned = ScalarZnx<Vec<u8>>;
 
-impl<D: Data> ScalarZnx<D> {
-    /// Constructs a `ScalarZnx` from raw parts without validation.
+impl<D: DataRef> ScalarZnx<D> {
+    /// Constructs a `ScalarZnx` from raw parts.
+    ///
+    /// # Panics
+    ///
+    /// Panics if the buffer holds fewer than `n * cols` `i64` words or is not aligned for `i64`.
     pub fn from_data(data: D, n: usize, cols: usize) -> Self {
+        let need: Option<usize> = n.checked_mul(cols).and_then(|x| x.checked_mul(size_of::<i64>()));
+        assert!(
+            matches!(need, Some(b) if b <= data.as_ref().len()),
+            "from_data: buffer of {} bytes too small for n={n} cols={cols}",
+            data.as_ref().len()
+        );
+        assert!(
+            (data.as_ref().as_ptr() as usize).is_multiple_of(align_of::<i64>()),
+            "from_data: buffer not aligned for i64"
+        );
         Self { data, n, cols }
     }
 }
